@@ -235,7 +235,7 @@ where
 
             // solve with [-q;0] as a RHS to get z initializer
             // zero out any sparse cone variables at end
-            self.workx.axpby(-T::one(), &data.q, T::zero());
+            self.workx.scalarop_from(|q| -q, &data.q); //workx .= -q
             self.workz.fill(T::zero());
 
             self.kktsolver.setrhs(&self.workx, &self.workz);
@@ -267,7 +267,7 @@ where
         data: &DefaultProblemData<T>,
         settings: &DefaultSettings<T>,
     ) -> bool {
-        self.workx.axpby(-T::one(), &data.q, T::zero()); //workx .= -q
+        self.workx.scalarop_from(|q| -q, &data.q); //workx .= -q
         self.kktsolver.setrhs(&self.workx, &data.b);
         let is_success =
             self.kktsolver
